@@ -1352,7 +1352,10 @@ def evidence(agg, tier, seed, wall):
         "rule": "one evaluation = one generated statement program (query class, statement kind, 1-9 clause actors with "
                 "FIFO call queues) delivered under its canonical order and up to 12 sampled merges of the queues; "
                 "distinct = distinct (class, kind, mode, actor/method layout); non-trivial = at least two actors, i.e. "
-                "at least one merge different from the canonical order was executed",
+                "at least one merge different from the canonical order was executed; 12 % of the evaluations are "
+                "'population' runs instead: 2-6 ops of the general-purpose generator (complete statements with nested "
+                "terms and sub-queries), every resulting statement rendered in its own dialect and put through the "
+                "balance and clause-order riders",
         "samples": agg["samples"][:2] or [{"note": "no short sample in this batch"}],
         "distinct_layouts": len(agg["shapes"]),
         "modes": dict(agg["configs"]),
@@ -1363,6 +1366,7 @@ def evidence(agg, tier, seed, wall):
         "clause_groups": dict(agg["groups"]),
         "prefix_states_checked_by_riders": agg["stats"].get("states", 0),
         "states_lexed_for_balance_and_clause_order": agg["stats"].get("lexed", 0),
+        "population_statements_lexed": agg["stats"].get("population_statements", 0),
         "sqlite_states_prepared": agg["stats"].get("sqlite_prepared", 0),
         "accumulation_list_checks": agg["stats"].get("accumulation_checked", 0),
         "accumulation_conjoin_checks": agg["stats"].get("conjoin_checked", 0),
